@@ -898,4 +898,85 @@ theorem C16_witness_dup_decl_reversed :
       [⟨⟨some sXmlns, ['p']⟩, ['u']⟩] := by
   refine ⟨by decide, by decide⟩
 
+/-! ## 4. tokenizer step and tree builder together, with the proposed fixes: no side condition left -/
+
+/-- the declared prefix determines the declaration attribute's name -/
+def declNameOf : Option Str → RName
+  | none => ⟨none, sXmlns⟩
+  | some l => ⟨some sXmlns, l⟩
+
+theorem declOf_name (a : RAttr) (k u : Option Str) (h : declOf a = some (k, u)) : a.name = declNameOf k := by
+  unfold declOf at h
+  split at h
+  · simp at h
+  · rename_i hd
+    split at h
+    · simp at h
+    · split at h
+      · rename_i hp
+        split at h
+        · simp at h
+        · simp at h
+          obtain ⟨rfl, _⟩ := h
+          cases hn : a.name with
+          | mk pfx loc => simp [hn] at hp; simp [declNameOf, hp]
+      · rename_i hp
+        simp at h
+        obtain ⟨rfl, _⟩ := h
+        have hd' : isDecl a.name = true := by simpa using hd
+        unfold isDecl at hd'
+        cases hn : a.name with
+        | mk pfx loc =>
+          simp [hn] at hp hd'
+          simp [hp] at hd'
+          simp [declNameOf, hd'.1, hd'.2]
+
+theorem noDupDecl_of_nodup_names (attrs : List RAttr) (h : (attrs.map (·.name)).Nodup) : NoDupDecl attrs := by
+  unfold NoDupDecl frameOf
+  induction attrs with
+  | nil => simp
+  | cons a rest ih =>
+    simp only [List.map_cons, List.nodup_cons] at h
+    simp only [List.filterMap_cons]
+    match hd : declOf a with
+    | none => exact ih h.2
+    | some (k, u) =>
+      simp only [List.map_cons, List.nodup_cons]
+      refine ⟨?_, ih h.2⟩
+      intro hk
+      obtain ⟨⟨k', u'⟩, hm, hk'⟩ := List.mem_map.mp hk
+      simp only at hk'; subst hk'
+      obtain ⟨b, hb, hbd⟩ := List.mem_filterMap.mp hm
+      have h1 := declOf_name a k' u hd
+      have h2 := declOf_name b k' u' hbd
+      exact h.1 (List.mem_map.mpr ⟨b, hb, by rw [h2, h1]⟩)
+
+/-- what the tokenizer has lexed before its attribute step: tags with raw names, or any other token -/
+inductive RawToken where
+  | tag (t : RawTag)
+  | other (t : Token)
+
+def finishToken (cfg : TokCfg) : RawToken → Token
+  | .tag t => .tag (finishTag cfg t)
+  | .other t => t
+
+/-- **C16 with the proposed fixes (tokenizer duplicate test on qualified names; `p:xmlns` an
+ordinary attribute)**: for EVERY sequence of lexed tags and other tokens — no hypothesis — the builder
+does not panic and the created elements are exactly those of the lexical-scope resolver. -/
+theorem C16_resolve_source_fixed (raws : List RawToken)
+    (hother : ∀ r ∈ raws, ∀ t, r = .other t → ∀ tg, t ≠ .tag tg) :
+    ∃ s, run TbCfg.fixed State.init (raws.map (finishToken TokCfg.fixed)) = .ok s ∧
+      s.createdList = resolve .prolog (raws.map (finishToken TokCfg.fixed)) := by
+  apply C16_resolve_fixed
+  intro t ht tg htg
+  obtain ⟨r, hr, rfl⟩ := List.mem_map.mp ht
+  match r, hr with
+  | .tag rt, _ =>
+    simp only [finishToken, Token.tag.injEq] at htg
+    subst htg
+    exact noDupDecl_of_nodup_names _ (C16_tok_no_dup_qname_fixed rt.attrs)
+  | .other t', hr' =>
+    simp only [finishToken] at htg
+    exact absurd htg (hother _ hr' t' rfl tg)
+
 end H5V.Props.C16
